@@ -106,6 +106,16 @@ Theorem C15_merge_copies_src : merge_copies_ok = true.
 Proof. exact merge_copies. Qed.
 Print Assumptions C15_merge_copies_src.
 
+(* Bound: the uses of the Sphinx build environment in the code that runs while documents are read (renderers,
+   MystParser.parse, mocks, directives, transforms, create_warning), regenerated from the source.  Each is classified,
+   and none reads a table that is filled incrementally by the reading process (all_docs, titles, tocs, domain data ...):
+   with parallel reading every worker has its own partial copy of those, so a read-time decision based on them would
+   depend on the assignment of documents to workers.  Read-time code only uses what is complete before reading starts,
+   the state of the current document, its own slot, or Sphinx note_* APIs whose data are merged from the workers. *)
+Theorem C15_read_phase_env_complete : env_reads_ok = true.
+Proof. exact env_reads_all_ok. Qed.
+Print Assumptions C15_read_phase_env_complete.
+
 (* per-document data live under env.metadata[docname]; when the documents are partitioned among
    the read workers (no docname belongs to two workers) merging the workers' environments into
    the main one in any order yields the same map *)
